@@ -200,6 +200,11 @@ def tiered_ranges(numtype, intsize, signed, start, end, shift_step,
         if endexcl:
             end -= 1
 
+    if start > end:
+        # Empty interval (inverted bounds, or an exclusive bound at the edge
+        # of the domain)
+        return ()
+
     if not shift_step:
         return ((start, end, 0),)
 
